@@ -80,6 +80,8 @@ type E1State struct {
 	depth   int
 	// the canonical store text of the state (kept for oracles and for trace validation)
 	storeCanon string
+	// aux is check-specific memory carried along the path (part of the state identity)
+	aux string
 }
 
 // Trace returns the transitions from the initial state.
@@ -149,6 +151,8 @@ type Hooks struct {
 	OnTransition func(x *Explorer, from *E1State, tr Trans, res *StepResult, to *E1State)
 	// OnState is called once for every new state with the world restored to it.
 	OnState func(x *Explorer, s *E1State)
+	// Aux computes the check-specific memory of the successor (optional).
+	Aux func(x *Explorer, from *E1State, tr Trans, res *StepResult) string
 }
 
 // Explorer runs the search.
@@ -284,18 +288,18 @@ func queuesCanon(queues map[string][]string) string {
 	return b.String()
 }
 
-func (x *Explorer) stateKey(canon string, queues map[string][]string, env Env) uint64 {
-	return hash64(canon + "\n#q " + queuesCanon(queues) + fmt.Sprintf("\n#env %d %d %d %s", env.NextReq, env.Faults, env.Crashes, env.Flags))
+func (x *Explorer) stateKey(canon string, queues map[string][]string, env Env, aux string) uint64 {
+	return hash64(canon + "\n#q " + queuesCanon(queues) + fmt.Sprintf("\n#env %d %d %d %s", env.NextReq, env.Faults, env.Crashes, env.Flags) + "\n#aux " + aux)
 }
 
 // newState snapshots the current world as a state (or returns the known one).
-func (x *Explorer) newState(from *E1State, tr Trans, queues map[string][]string, env Env) (*E1State, bool) {
+func (x *Explorer) newState(from *E1State, tr Trans, queues map[string][]string, env Env, aux string) (*E1State, bool) {
 	canon := x.W.Canon()
-	key := x.stateKey(canon, queues, env)
+	key := x.stateKey(canon, queues, env, aux)
 	if s, ok := x.visited[key]; ok {
 		return s, false
 	}
-	s := &E1State{snap: x.W.Snapshot(), queues: queues, env: env, key: key, content: hash64(canon), parent: from, via: tr, storeCanon: canon}
+	s := &E1State{snap: x.W.Snapshot(), queues: queues, env: env, key: key, content: hash64(canon), parent: from, via: tr, storeCanon: canon, aux: aux}
 	if _, ok := x.contentSnap[s.content]; !ok {
 		x.contentSnap[s.content] = s.snap
 	}
@@ -350,7 +354,7 @@ func (x *Explorer) Prepare() {
 	if len(q) != 0 {
 		panic("scenario " + sc.Name + ": world does not go idle before exploration")
 	}
-	x.init, _ = x.newState(nil, Trans{}, map[string][]string{}, Env{})
+	x.init, _ = x.newState(nil, Trans{}, map[string][]string{}, Env{}, "")
 }
 
 // Run explores breadth-first until the graph is exhausted, the state cap is hit or the deadline passes.
@@ -372,7 +376,11 @@ func (x *Explorer) Run() {
 				return
 			}
 			add := func(tr Trans, res *StepResult, queues map[string][]string, env Env) {
-				to, isNew := x.newState(s, tr, queues, env)
+				aux := s.aux
+				if x.Hooks.Aux != nil {
+					aux = x.Hooks.Aux(x, s, tr, res)
+				}
+				to, isNew := x.newState(s, tr, queues, env, aux)
 				x.Transitions++
 				x.out[s.key] = append(x.out[s.key], absEdge{tr, to})
 				if to.content != s.content {
